@@ -142,6 +142,13 @@ class Pipe:
                 n = fv.selfv
                 stub = Opaque("STUB(%s)" % n.text, cls=fv.func.cls, kind="obj")
                 return Seq("list", [stub, n])
+            if q == "node.Node.getPathFromRoot" and self.mode is not None and self.mode >= 2:
+                # label in layer k behind a chain of k stubs, the root (layer 0) first
+                n = fv.selfv
+                stubs = [Opaque("STUB(%s)" % n.text if j == 0 else "STUB%d(%s)" % (j, n.text), cls=fv.func.cls, kind="obj") for j in range(self.mode)]
+                return Seq("list", stubs + [n])
+            if q == "node.Node.getRoot" and self.mode is not None and self.mode >= 2:
+                return Opaque("STUB(%s)" % fv.selfv.text, cls=fv.func.cls, kind="obj")
             if q == "node.Node.getPathFromRoot":
                 return Seq("list", [fv.selfv])
             if q == "node.Node.getRoot" and self.mode == 1:
